@@ -259,6 +259,12 @@ def check(plan, res):
                 b = w[2][1:]
                 # which op follows the rec decides what must be reported; every bomb kind ends in an error message
                 ok = any(ridx > idx for ridx, txt in reports)
+                # an error() bomb carries its own text: that text - not only some later failure of the master's handler -
+                # must show up in a report
+                first_rep = min((ridx for ridx, txt in reports if ridx > idx), default=None)
+                injected = first_rep is not None and any(x.kind == 'fault_fired' for x in evs[idx:first_rep + 1])     # the injected error came first
+                if ok and not injected and _bomb_how(plan, b) == 'err' and not any(ridx > idx and re.search(r'bomb %s\b' % b, txt) for ridx, txt in reports):
+                    v.append(Violation(PROP, 'unreported', 'bomb %s raised error("bomb %s") but no report shows that message' % (b, b), PROP + '/unreported/original-message-lost'))
                 if not ok:
                     # a bomb that is not an error (deep 9 / spend) reports nothing: only flag err-type bombs
                     if True:
@@ -348,6 +354,18 @@ def _timers_alive(plan, res):
                                        PROP + '/liveness/call_out-never-fires'))
                     break
     return v
+
+
+def _bomb_how(plan, b):
+    """how bomb number b fails (err, typeerr, throw, forever, deepforever), from the plan text; None if not found"""
+    pat = re.compile(r'bomb %s (err|typeerr|forever|deepforever|throw)\b' % b)
+    texts = [dec(h.split(' ')[2]).decode('latin-1') for h in plan.header if h.startswith('file ')]
+    for ci, op, a in _plan_steps(plan):
+        if op in ('send', 'console'): texts.append(dec(a[1] if op == 'send' else a[0]).decode('latin-1'))
+    for t in texts:
+        m = pat.search(t)
+        if m: return m.group(1)
+    return None
 
 
 def _bomb_is_error(plan, b):
